@@ -373,6 +373,49 @@ func (a *Apps) DoProxy(r *Req) *Resp {
 	return &Resp{Status: rec.Code, Header: rec.Header(), Body: rec.Body.String(), Allowed: len(ups) > 0, Upstream: ups}
 }
 
+// TakeCorrelated removes and returns the recorded upstream requests that carry the given correlation header value.
+func (u *Upstream) TakeCorrelated(value string) []*UpstreamReq {
+	u.mu.Lock()
+	defer u.mu.Unlock()
+
+	var mine, rest []*UpstreamReq
+
+	for _, q := range u.Reqs {
+		if q.Header.Get(CorrelationHeader) == value {
+			q.Header.Del(CorrelationHeader)
+			mine = append(mine, q)
+		} else {
+			rest = append(rest, q)
+		}
+	}
+
+	u.Reqs = rest
+
+	return mine
+}
+
+// CorrelationHeader marks requests of concurrent clients so that what the upstream recorded can be attributed.
+const CorrelationHeader = "X-Verif-Correlation"
+
+// DoProxyConcurrent is DoProxy for concurrent callers: the request carries a correlation header (removed again from
+// what is reported).
+func (a *Apps) DoProxyConcurrent(r *Req, correlation string) *Resp {
+	rc := *r
+	rc.Header = append(append([][2]string{}, r.Header...), [2]string{CorrelationHeader, correlation})
+
+	req, err := rc.httpRequest()
+	if err != nil {
+		return &Resp{ParseErr: err}
+	}
+
+	rec := newRecorder()
+	served(req, a.Proxy, rec)
+
+	ups := a.Upstream.TakeCorrelated(correlation)
+
+	return &Resp{Status: rec.Code, Header: rec.Header(), Body: rec.Body.String(), Allowed: len(ups) > 0, Upstream: ups}
+}
+
 func (a *Apps) DoEnvoy(r *Req) *Resp {
 	hdrs := map[string]string{}
 
